@@ -665,11 +665,26 @@ func (r *watchRun) newEvents(k int, allowMalformed bool, oneBlock bool) []*evSpe
 	g := r.g
 	var evs []*evSpec
 	open := map[*fblock][]msgSpec{}
+	// one transaction may publish several messages (two token-bridge calls; a foreign contract's call followed by a
+	// token-bridge call; ...): bursts of 2-4 consecutive events share tx id and block, so they also straddle page boundaries
+	burstLeft, burstTx := 0, ""
+	var burstBlock *fblock
 	for j := 0; j < k; j++ {
 		m := g.randMsg(r.c)
 		var b *fblock
 		anchor := false
-		if r.dip && !r.anchored && !oneBlock {
+		if burstLeft > 0 {
+			burstLeft--
+			b = burstBlock
+			if g.chance(70) {
+				m.sender = r.c.bridge // the genuine message after a foreign / odd neighbour of the same tx
+			}
+			if b.mid && b.ts != 0 && !clearOf(r.base-b.ts, m) {
+				m.cl, m.payload = b.evs[len(b.evs)-1].m.cl, b.evs[len(b.evs)-1].m.payload
+			} else if b.mid && b.ts == 0 && len(open[b]) > 0 && g.chance(50) {
+				m.cl = open[b][0].cl
+			}
+		} else if r.dip && !r.anchored && !oneBlock {
 			r.anchored, anchor = true, true
 			m = msgSpec{sender: r.c.bridge, tc: 2, seq: uint64(g.r.Intn(1000)), nonce: g.r.Uint32(), cl: g.cl(), payload: []byte{1, 2, 3}}
 			b = &fblock{bh: g.hash(), height: int32(100 + g.r.Intn(50)), ts: r.base + 2*60*fMinute}
@@ -694,8 +709,22 @@ func (r *watchRun) newEvents(k int, allowMalformed bool, oneBlock bool) []*evSpe
 		}
 		e := &evSpec{id: r.nextId, bh: b.bh, tx: g.hash(), m: m}
 		r.nextId++
-		if len(b.evs) > 0 && g.chance(15) { // several events of one transaction
+		if burstTx != "" && b == burstBlock && (burstLeft > 0 || evs[len(evs)-1].tx == burstTx) && len(evs) > 0 && evs[len(evs)-1].bh == b.bh {
+			e.tx = burstTx
+		} else if len(b.evs) > 0 && g.chance(15) { // several events of one transaction, not adjacent in the log
 			e.tx = b.evs[g.r.Intn(len(b.evs))].tx
+		}
+		if burstLeft == 0 && e.tx != burstTx && !anchor && j+1 < k && g.chance(22) {
+			burstLeft, burstTx, burstBlock = 1+g.r.Intn(3), e.tx, b
+			if burstLeft > k-1-j {
+				burstLeft = k - 1 - j
+			}
+			if g.chance(35) {
+				e.m.sender = g.bytesN(32) // the tx first makes a foreign contract publish
+			}
+		}
+		if burstLeft == 0 && e.tx != burstTx {
+			burstTx = ""
 		}
 		if allowMalformed && !anchor && g.chance(12) {
 			e.malform = fMalformKinds[g.r.Intn(len(fMalformKinds))]
